@@ -402,6 +402,33 @@ def tie_d(prop, tier, cases=(), priority=()):
     return stats, mine
 
 
+# ------------------------------------------------------------------ hostile scopes (tie E, C14)
+def tie_e(prop, cases, seed, tier, priority):
+    """the probe items inside a module that redefines every std name the expansion mentions (no prelude, inherent look-alike methods on
+    the field type), run and compared with the model as in tie B; and inside a #![no_std] library crate (type-check only)"""
+    import concurrent.futures
+    import tieb
+    if prop != 'C14':
+        return None, []
+    cfgs = PROPS[prop]['cfgs']
+    limit = 160 if tier == 'quick' else 800
+    out, problems = {}, []
+    with concurrent.futures.ThreadPoolExecutor(max_workers=10) as ex:
+        futs = {ex.submit(tieb.run, c, cases, seed, limit, None, None, priority, True): ('hostile', c) for c in cfgs}
+        futs.update({ex.submit(tieb.run_nostd, c, cases, seed, limit * 2, priority): ('no_std', c) for c in cfgs})
+        for f in concurrent.futures.as_completed(futs):
+            st, pr = f.result()
+            out.setdefault(futs[f][0], {})[futs[f][1]] = {k: v for k, v in st.items() if not k.startswith('_')}
+            for p in pr:
+                p.setdefault('scope', futs[f][0])
+                problems.append(p)
+    known_f4 = [p for p in problems if p['kind'] == 'compile' and any('E0599' in e and '`from`' in e and 'raw pointer' in e for e in p['errors'])]
+    rest = [p for p in problems if p not in known_f4]
+    stats = dict(hostile_items=sum(s.get('compared', 0) for s in out['hostile'].values()), hostile_observations=sum(s.get('observations', 0) for s in out['hostile'].values()),
+                 no_std_items=sum(s['items'] for s in out['no_std'].values()), known_F4_class_items=len(known_f4), per_cfg=out)
+    return stats, rest
+
+
 # ------------------------------------------------------------------ known findings
 def known_findings(prop, cases):
     """open findings of this property whose witness still shows the failing construct in the REAL expansion"""
@@ -509,6 +536,13 @@ def check(prop, tier, seed):
         violations.insert(0, (dict(kind='diagnostics', property=prop, observed=p,
                                    note='rustc, running the real proc-macro entry points on this item, reports diagnostics that contradict the property',
                                    replay_cmd='./dwv replay <this file>'), True))
+    estats, eprobs = tie_e(prop, cases, seed, tier, {d['case'] for d in mine})
+    for p in [p for p in eprobs if p['case'] not in kf_cases][:5]:
+        q = {k: v for k, v in p.items() if k != 'values'}
+        violations.insert(0, (dict(kind='failing-input', property=prop, observed=q, hostile_scope=True,
+                                   note='inside a hostile invocation scope (std names redefined, no prelude, look-alike inherent methods) or a no_std crate, '
+                                        'the real expansion of this item does not compile or behaves differently',
+                                   replay_cmd='./dwv replay <this file>'), True))
     dstats, dprobs = tie_d(prop, tier, cases, {d['case'] for d in mine})
     for p in dprobs[:5]:
         violations.insert(0, (dict(kind='solver', property=prop, observed=p,
@@ -542,6 +576,7 @@ def check(prop, tier, seed):
             behaviour=bstats if bstats else 'not applicable to this property',
             rustc_diagnostics=cstats if cstats else 'not applicable to this property',
             rustc_trait_solver=dstats if dstats else 'not applicable to this property',
+            hostile_scopes=estats if estats else 'not applicable to this property',
             extraction_crosscheck_vm_compute=xc,
             samples=samples, exhaustive=False),
         assumptions=TRUSTED_BASE)
@@ -556,6 +591,10 @@ def check(prop, tier, seed):
     if cstats:
         print('diagnostics (real rustc, real entry points): %d rejected items (%d errors, %d ill-posed discarded), %d token soups (%d accepted); %d problems'
               % (cstats['rejected_items_checked'], cstats['errors_seen'], cstats['ill_posed_discarded'], cstats['soups'], cstats['soups_accepted'], len(cprobs)))
+    if estats:
+        print('hostile scopes (real rustc): %d items run inside a scope redefining every std name (%d observations agree with the model), %d items type-checked in a no_std crate; '
+              '%d items fail only with the known F4 diagnostic; %d problems' % (estats['hostile_items'], estats['hostile_observations'], estats['no_std_items'], estats['known_F4_class_items'],
+                                                                         len([p for p in eprobs if p['case'] not in kf_cases])))
     if dstats:
         print('trait solver (real rustc): %d items, %d `Item<M1, M2>: Trait` answers compared with the documented rule and the model\'s where-clauses, %d must-fail items; %d problems'
               % (dstats['items'], dstats['trait_implemented_answers'], dstats['must_fail_items'], len(dprobs)))
